@@ -85,3 +85,141 @@ class C07(_AppSpec):
                     "kernel": "3 failures with unbounded Int line/column, rule ids from a 3-element set"}
         return {"documents": "G1 length 0..2; G2 core pool one cell; per-rule: G1 length 0..1 + 4 mini skeletons", "selections": "default; all; each of the 46 rules alone",
                 "kernel": "3 failures with unbounded Int line/column, rule ids from a 3-element set"}
+
+
+def _fixable_default_rules():
+    from checks.app_real import _collecting_presentation
+    import os
+
+    import pymarkdown.main
+    from application_properties import ApplicationProperties
+    from pymarkdown.plugin_manager.plugin_manager import PluginManager
+
+    pm = PluginManager(_collecting_presentation())
+    pm.initialize(os.path.join(os.path.dirname(pymarkdown.main.__file__), "plugins"), [], "", "", ApplicationProperties(), False, False)
+    return sorted(p.plugin_id.lower() for p in pm._PluginManager__registered_plugins
+                  if p.plugin_supports_fix and p.plugin_enabled_by_default and p.plugin_id.lower() != "md999")
+
+
+class C09(_AppSpec):
+    prop = "C09"
+    sym_module = "checks.fix_sym"
+    rule_text = ("one symbolic path = one joint behaviour of fix(d), fix(fix(d)) and scan(fix(d)) through PyMarkdownLint.main over the VFS; "
+                 "assertions: second fix leaves the bytes unchanged (symbolic string equality) and reports nothing fixed, scan of the fixed text has no failure of a fix-capable rule; "
+                 "distinct = distinct (exit codes, rule ids left)")
+
+    def shards(self, tier):
+        out = []
+        rules = _fixable_default_rules()
+        if tier == "quick":
+            base = docs.g1_shards(1) + docs.g2_shards(docs.load_pool("mini"), replace=True)
+            for s in base:
+                out.append(self.job("c09", dict(s, selection="default")))
+            for rid in rules:
+                for s in docs.g1_shards(1):
+                    out.append(self.job("c09", dict(s, selection="only:" + rid)))
+        else:
+            base = docs.g1_shards(2) + docs.g2_shards(docs.load_pool("core"), replace=True)
+            for s in base:
+                out.append(self.job("c09", dict(s, selection="default")))
+            small = docs.g1_shards(1) + docs.g2_shards(docs.load_pool("mini"), replace=True)
+            for rid in rules:
+                for s in small:
+                    out.append(self.job("c09", dict(s, selection="only:" + rid)))
+            tiny = docs.g1_shards(1) + docs.g2_shards(docs.load_pool("mini")[:3], replace=True)
+            for i, a in enumerate(rules):
+                for b in rules[i + 1:]:
+                    for s in tiny:
+                        out.append(self.job("c09", dict(s, selection=f"set:{a},{b}")))
+        return out
+
+    def bounds_text(self, tier):
+        if tier == "quick":
+            return {"documents": "G1 length 0..1; G2 mini pool one cell", "selections": "default rule set; each fix-capable default rule alone (G1 only)"}
+        return {"documents": "G1 length 0..2; G2 core pool one cell", "selections": "default; each fix-capable default rule alone (G1 0..1 + mini pool); every pair of fix-capable default rules (G1 0..1 + 3 skeletons)"}
+
+
+class C10(_AppSpec):
+    prop = "C10"
+    sym_module = "checks.fix_sym"
+    rule_text = ("one symbolic path = one joint behaviour of `scan` then `fix` of the same document over the logging VFS; assertions: scan performs no write/create/remove and leaves no file; "
+                 "bytes changed <=> 'Fixed:' announced <=> fixed-at-least-one-file exit code; no fix-capable failure in scan => unchanged; no temporary file left; "
+                 "distinct = distinct (exit codes, #fixed, rule ids)")
+
+    def shards(self, tier):
+        out = []
+        if tier == "quick":
+            base = docs.g1_shards(1) + docs.g2_shards(docs.load_pool("mini"), replace=True)
+            for s in base:
+                out.append(self.job("c10", dict(s, selection="default")))
+            for s in docs.g1_shards(1) + docs.g2_shards(docs.load_pool("mini")[:2], replace=True):
+                out.append(self.job("c10", dict(s, selection="default", scheme="minimal")))
+        else:
+            base = docs.g1_shards(2) + docs.g2_shards(docs.load_pool("core"), replace=True)
+            for scheme in ("default", "minimal"):
+                for s in base:
+                    out.append(self.job("c10", dict(s, selection="default", scheme=scheme)))
+            for s in docs.g1_shards(1) + docs.g2_shards(docs.load_pool("mini"), replace=True):
+                out.append(self.job("c10", dict(s, selection="all")))
+        return out
+
+    def bounds_text(self, tier):
+        return {"documents": "G1 length 0..1 + mini pool one cell (quick) / G1 0..2 + core pool (thorough)", "files_per_invocation": 1,
+                "schemes": "default and minimal return-code schemes", "note": "multi-file invocations are covered by C13/C18"}
+
+
+def _strided(shards, k):
+    return [s for i, s in enumerate(shards) if i % k == 0]
+
+
+class C12(_AppSpec):
+    prop = "C12"
+    max_witness_replays = 60
+    per_path_timeout = 60.0
+    rule_text = ("one symbolic path = one joint behaviour of 48 scans of the same symbolic document (all 46 rules, the default set, each rule alone; thorough: + default minus each default rule), "
+                 "each through its own real PluginManager+FileScanHelper; assertion: bag of (line, column, rule, extra) of a set == bag union of its members alone; "
+                 "distinct = distinct sets of rule ids reported with all rules on")
+
+    def shards(self, tier):
+        if tier == "quick":
+            base = docs.g1_shards(1) + _strided(docs.g2_shards(docs.load_pool("mini"), replace=True), 3)
+            return [self.job("c12", s, budget=400.0) for s in base]
+        base = docs.g1_shards(1) + docs.g2_shards(docs.load_pool("core"), replace=True)
+        return [self.job("c12", dict(s, minus=True), budget=900.0) for s in base]
+
+    def bounds_text(self, tier):
+        if tier == "quick":
+            return {"documents": "G1 length 0..1; mini pool, one symbolic cell at every third position", "configurations": "all, default, each of the 46 rules alone"}
+        return {"documents": "G1 length 0..1; core pool one cell at every position", "configurations": "all, default, each rule alone, default minus each default-enabled rule"}
+
+
+class C14(_AppSpec):
+    prop = "C14"
+    rule_text = ("one symbolic path = one run of the application with a recording rule loaded through --add-plugin; assertion on its call log: per file start, then the tokens of a direct parse "
+                 "(compared by str(), pragma token removed, end-of-stream included) in order, then every line with its number and exact text (symbolic string equality), then completed; "
+                 "a disabled recorder logs nothing; distinct = distinct call-shape strings")
+    stubs = _STUBS + ["recording rule /verif/plugins/recorder_rule.py registered through the real --add-plugin path"]
+    outside = _AppSpec.outside + ["fix-mode passes (the recorder is not fix-capable; fix-mode life-cycle is exercised indirectly by C08-C10)"]
+
+    def shards(self, tier):
+        out = []
+        if tier == "quick":
+            base = docs.g1_shards(2, split_from=9) if False else docs.g1_shards(1)
+            pool = docs.load_pool("mini") + ["<!-- pyml disable-next-line md013-->\n", "a"]
+            for s in base + docs.g2_shards(pool[:9], replace=True)[::2] + docs.g2_shards(pool[9:], replace=True)[::4]:
+                out.append(self.job("c14", s))
+            for s in docs.g1_shards(1):
+                out.append(self.job("c14", dict(s, second="# x\n\n- y\n")))
+                out.append(self.job("c14", dict(s, disabled=True)))
+        else:
+            pool = docs.load_pool("core") + ["<!-- pyml disable-next-line md013-->\n", "a"]
+            for s in docs.g1_shards(2) + docs.g2_shards(pool, replace=True):
+                out.append(self.job("c14", s))
+            for s in docs.g1_shards(1) + docs.g2_shards(docs.load_pool("mini"), replace=True):
+                out.append(self.job("c14", dict(s, second="# x\n\n- y\n")))
+            for s in docs.g1_shards(1):
+                out.append(self.job("c14", dict(s, disabled=True)))
+        return out
+
+    def bounds_text(self, tier):
+        return {"documents": "G1 length 0..1 (quick) / 0..2 (thorough); mini (quick, every second position) / core pool one cell; pragma-only and no-final-newline skeletons", "files": "1 or 2 per invocation", "mode": "scan"}
